@@ -144,8 +144,10 @@ def reconstruct(repo, out_dir, decoy=False):
         zones += ['Zone\tVerif/Late%s\t4:00\tVerifL%s\tL%%sT' % (tag, tag)]
     # a Rule whose TYPE column (ignored by zic since 2020b, and by this compiler) is not '-'
     rules += [
-        'Rule\tVerifT\t2001\tmax\teven\tMar\tlastSun\t2:00\t1:00\tD',
-        'Rule\tVerifT\t2001\tmax\todd\tOct\tlastSun\t2:00\t0\tS',
+        'Rule\tVerifT\t2001\t2010\t-\tMar\tlastSun\t2:00\t1:00\tD',
+        'Rule\tVerifT\t2001\t2010\t-\tOct\tlastSun\t2:00\t0\tS',
+        'Rule\tVerifT\t2011\tmax\teven\tApr\tSun>=1\t2:00\t1:00\tD',
+        'Rule\tVerifT\t2011\tmax\todd\tSep\tlastSun\t2:00\t0\tS',
     ]
     zones += ['Zone\tVerif/Typed\t5:00\tVerifT\tY%sT']
     if decoy:
